@@ -247,9 +247,20 @@ def rule_links(ctx, repo):
     # model branch
     e = Q.first("$uid = %s.idx2uid(self.indexer.v)" % ext, fn)[1]
     ok = e is not None and Q.has("self.a = $ov.a[$uid]", fn, e) and Q.has("$ov = %s.__dict__[self.src]" % ext, fn)
-    t = [tn for tn in f.g.nodes() if f.g.data(tn)["kind"] == "test" and Q.match("self.indexer is not None", f.g.data(tn)["ast"].test)]
+    # the full-range definition is reachable only without an indexer (either orientation of the test)
     full = Q.first("$uid = np.arange(%s.n, dtype=int)" % ext, fn, e)[0] if e else None
-    ok = ok and bool(t) and full is not None
+    guarded = False
+    if full is not None:
+        fulln = [n for n in f.g.nodes() if f.g.data(n)["kind"] == "stmt" and f.g.data(n)["ast"] is full]
+        for tn in f.g.nodes():
+            if f.g.data(tn)["kind"] != "test" or not hasattr(f.g.data(tn)["ast"], "test"):
+                continue
+            tt = f.g.data(tn)["ast"].test
+            if Q.match("self.indexer is not None", tt) is not None and fulln and f.g.guarded_by(fulln[0], tn, "false"):
+                guarded = True
+            if Q.match("self.indexer is None", tt) is not None and fulln and f.g.guarded_by(fulln[0], tn, "true"):
+                guarded = True
+    ok = ok and guarded and full is not None
     ctx.check(ok, "C10.link", "ExtVar.link_external/model", "a = source.a[idx2uid(indexer.v)] (full range iff no indexer)",
               "external variable addresses are no longer taken at the positions idx2uid(indexer.v) of the source variable", f.W())
     # group branch
